@@ -327,6 +327,7 @@ Check thomas_dominant_never_refuses : forall (t : tridiag AR_c05) (r : list AR_c
   exists u, tsolve t r = Ok u /\ length u = tn t /\
     forall i, (i < tn t)%nat -> sum_n (tn t) (fun j => (dense t i j * nth j u zero)%A) = nth i r zero.
 Print Assumptions thomas_dominant_never_refuses.
+Print Assumptions tridiag_views.   (* separator: a closed theorem ends the axiom list above for the driver's output parser *)
 (* [[4,1,0],[1,-4,2],[0,-1,3]] is dominant *)
 Example thomas_dominant_nonvacuous :
   let t := @mkT AR_c05 [1%R; (-1)%R] [4%R; (-4)%R; 3%R] [1%R; 2%R] 3 in
@@ -403,6 +404,7 @@ Check thomas_backward_error : forall (u : R), (0 <= u <= 1 / 64)%R ->
      + (nth i (tmain t) 0 * (1 + eb) + nth i (0 :: tsub t) 0 * nth i gl 0 * eg) * nth i x 0
      + nth i (tsup t) 0 * (1 + ec) * nth (i + 1) x 0 = nth i r 0)%R.
 Print Assumptions thomas_backward_error.
+Print Assumptions tridiag_views.   (* separator, as above *)
 (* the hypotheses are met by operations that do commit errors (u = 1/64: subtraction rounds up by 1/64, multiplication
    down by 1/128, division is exact), and solve answers on a 1x1 system with them *)
 Example thomas_backward_error_nonvacuous :
